@@ -567,3 +567,8 @@ where
 pub fn boxed<T: Debug + 'static>(s: impl Strategy<Value = T> + 'static) -> BoxedStrategy<T> {
     s.boxed()
 }
+
+/// Number of replay repetitions (VERIF_REPLAY_N overrides the default).
+pub fn replay_times(default: u32) -> u32 {
+    std::env::var("VERIF_REPLAY_N").ok().and_then(|s| s.parse().ok()).unwrap_or(default)
+}
